@@ -320,6 +320,18 @@ func (s *IndexedState) add(ctx *Context, id string, x Map) (string, map[string]i
 		return id, nil, err
 	}
 
+	// What is stored under this id might have expired without
+	// anybody having noticed.  Then it goes now, and properly (its
+	// index entries, its record, its dependents), rather than in
+	// the middle of what follows: a hook that looks the id up
+	// would find it expired and take the index entry of the new
+	// rule with it, if that has the same pattern.
+	if stale, have := s.IdToFact[id]; have {
+		if _, err = s.expire(ctx, id, stale, 0); err != nil {
+			return "", nil, err
+		}
+	}
+
 	// If we are overwriting a rule, then that rule's pattern has
 	// to leave the rule index -- whatever we are about to store
 	// under this id.
